@@ -32,6 +32,10 @@ def check(pid, tier):
         base = {"time": "t", "units": "m", "foo": "absent"}
         cases.append({"po": dict(base, grid=pg, mask=pm), "ci": dict(base, grid=cg, mask=cm),
                       "c2": dict(base, grid=cg, mask=cm), "via": "direct", "two": False})
+    for pm, cm, pg, cg in itertools.product(masks, masks, ["l", "lr"], ["l", "lr"]):      # one-dimensional grids
+        base = {"time": "t", "units": "m", "foo": "absent"}
+        cases.append({"po": dict(base, grid=pg, mask=pm), "ci": dict(base, grid=cg, mask=cm),
+                      "c2": dict(base, grid=cg, mask=cm), "via": "direct", "two": False})
     traces = [t for t in run_cases("meta_run", "run_case", cases) if "harness_error" not in t]
     acc, tot, bad, gen, _ = tlc.validate("Meta_Trace", traces)
     ev.add_traces("Meta_Trace/mask-acceptance", acc, tot, gen)
@@ -40,7 +44,7 @@ def check(pid, tier):
         violations.append((pid, f"mask acceptance: {verdict} case={jdump(traces[k]['case'])[:300]}", path))
     ev.cov["rule"] = ("every case of MaskOps.tla (shapes up to 3 dimensions / 8 elements, both orders, all masks for "
                       "<= 6 elements, masked arrays / mask argument / nomask, plain and quantified) on the public "
-                      "helpers, plus all 576 producer x consumer mask x layout (four layouts of one geometry) combinations of the acceptance table; "
+                      "helpers, plus all 576 + 144 producer x consumer mask x layout (four layouts of one 2-D geometry, two of a 1-D one) combinations of the acceptance table; "
                       "non-trivial = partial mask")
     return finish(pid, ev, out_lines, violations, machinery)
 
